@@ -1,5 +1,80 @@
-//! Stubs used only under cfg(kani).
+//! Support code for the Kani harnesses (compiled only under cfg(kani); lopdf itself is
+//! `#![forbid(unsafe_code)]`, so everything needing `unsafe` lives here).
+#![feature(allocator_api)]
+use std::alloc::{Allocator, Layout};
+
+/// One of the values `RandomState::new()` may return (HashMap behaviour must not depend on the keys).
 pub fn fixed_random_state() -> std::hash::RandomState {
-    // RandomState is two u64 keys; a fixed key is one of the values the real constructor may return.
     unsafe { std::mem::transmute::<[u64; 2], std::hash::RandomState>([0x0706050403020100, 0x0f0e0d0c0b0a0908]) }
+}
+
+extern "C" {
+    fn malloc(size: usize) -> *mut u8;
+    fn calloc(n: usize, size: usize) -> *mut u8;
+}
+
+/// Allocator model ("arena of fixed-size blocks").
+///
+/// CBMC handles heap objects of *constant* size cheaply and objects of symbolic size (every `Vec`
+/// that grows on a data-dependent path, via Kani's `realloc` = `malloc(symbolic)` + `memcpy(symbolic)`)
+/// very badly: reading one byte of the result of a 2-byte ASCII85 decode needed > 20 GB.
+/// The model hands out blocks of one constant size CAP for every request <= CAP, so `realloc`
+/// within CAP is the identity and nothing is ever copied or freed.  Over-allocation and leaking are
+/// unobservable for safe Rust (Vec/String track their own capacity).  A request above CAP fails an
+/// assertion => the harness is reported inconclusive ("bound exceeded"), never silently truncated.
+macro_rules! arena {
+    ($alloc:ident, $zeroed:ident, $realloc:ident, $cap:expr) => {
+        pub unsafe fn $alloc(layout: Layout) -> *mut u8 {
+            assert!(layout.size() <= $cap, "verif allocator model: request above block size (bound exceeded)");
+            malloc($cap)
+        }
+        pub unsafe fn $zeroed(layout: Layout) -> *mut u8 {
+            assert!(layout.size() <= $cap, "verif allocator model: request above block size (bound exceeded)");
+            calloc(1, $cap)
+        }
+        pub unsafe fn $realloc(ptr: *mut u8, _layout: Layout, new_size: usize) -> *mut u8 {
+            assert!(new_size <= $cap, "verif allocator model: request above block size (bound exceeded)");
+            ptr
+        }
+    };
+}
+arena!(alloc64, alloc_zeroed64, realloc64, 64);
+arena!(alloc256, alloc_zeroed256, realloc256, 256);
+arena!(alloc1k, alloc_zeroed1k, realloc1k, 1024);
+arena!(alloc4k, alloc_zeroed4k, realloc4k, 4096);
+
+/// Leak instead of free.
+pub unsafe fn dealloc_nop(_ptr: *mut u8, _layout: Layout) {}
+
+/// Replacement for `NonNull::without_provenance` (what `Vec::new()`, `String::new()`, empty boxed
+/// slices ... use for their "dangling" pointer).  CBMC treats an integer-address pointer that is
+/// later dereferenced on a symbolically-guarded path (e.g. `slice.contains()` on a possibly-empty
+/// `Vec<usize>`) as able to alias every object in the program, which blew a 1-byte
+/// `Writer::write_string` query up to > 20 GB.  The model returns the address of a real, leaked,
+/// 64-byte aligned static object instead: any non-null, well-aligned pointer is a valid dangling
+/// pointer for the zero-sized accesses Rust performs through it, so behaviour is unchanged.
+#[repr(align(64))]
+pub struct DanglingArena(pub [u8; 64]);
+pub static DANGLING_ARENA: DanglingArena = DanglingArena([0u8; 64]);
+
+pub fn without_provenance_model<T>(_addr: std::num::NonZero<usize>) -> std::ptr::NonNull<T> {
+    unsafe { std::ptr::NonNull::new_unchecked(DANGLING_ARENA.0.as_ptr() as *mut T) }
+}
+
+/// `Vec::extend_from_slice` as an element-wise push loop (same semantics; avoids a bulk `memcpy`
+/// to a symbolic offset / of symbolic length, which CBMC encodes very expensively).
+pub fn vec_extend_from_slice_model<T: Clone, A: Allocator>(v: &mut Vec<T, A>, other: &[T]) {
+    let mut i = 0;
+    while i < other.len() {
+        v.push(other[i].clone());
+        i += 1;
+    }
+}
+
+/// `Vec::append` as an element-wise move loop (same semantics; avoids a bulk `memcpy` of symbolic
+/// length between possibly-unallocated vectors).
+pub fn vec_append_model<T, A: Allocator>(v: &mut Vec<T, A>, other: &mut Vec<T, A>) {
+    for x in other.drain(..) {
+        v.push(x);
+    }
 }
